@@ -187,10 +187,10 @@ def prog_key(prog):
     return tlaval.to_tla(prog)
 
 
-def m2_expr(ctx, al, cfg):
+def m2_expr(ctx, al, module, cfg):
     d = tlc.scratch_dir("c01")
     dump = os.path.join(d, "st")
-    r = tlc.require_ok(tlc.run("StreamOpsC01", cfg, dump=dump, timeout=3000), "StreamOps " + cfg,
+    r = tlc.require_ok(tlc.run(module, cfg, dump=dump, timeout=3000), "StreamOps " + cfg,
                        need_actions=("Pull",))
     ctx.add_tlc(r, "StreamOps %s: pull machine == element-wise definition" % cfg)
     doubt = []
@@ -400,8 +400,12 @@ def m2_broadcast(ctx, al):
             read_at_call = reads()
             ok = True
             outlen = 0
+            outkind = kind_of(al, res)
             if kind == "scalar":
-                ok = same_value(res, f.__wrapped__(items[0])) if hasattr(f, "__wrapped__") else True
+                # scalar in, scalar out = the function applied directly (frexp/modf naturally return a pair)
+                raw = getattr(f, "__wrapped__", None)
+                ok = same_value(res, raw(items[0])) if raw is not None else True
+                outkind = "scalar" if ok else "changed"
                 outlen = 1
             else:
                 got = list(res)
@@ -411,7 +415,7 @@ def m2_broadcast(ctx, al):
                     ok = set(map(repr, got)) == set(map(repr, want))
                 else:
                     ok = len(got) == len(want) and all(same_value(g, w) for g, w in zip(got, want))
-            recs.append({"what": "bcast", "fn": name, "kind": kind, "n": n, "outkind": kind_of(al, res),
+            recs.append({"what": "bcast", "fn": name, "kind": kind, "n": n, "outkind": outkind,
                          "read_at_call": read_at_call, "outlen": outlen, "elementwise": bool(ok)})
             ctx.count(1, nontrivial_key=("b", name, kind, n) if n >= 2 else None)
     ctx.sample({"broadcast_record": recs[len(recs) // 2]})
@@ -442,10 +446,10 @@ def check(ctx):
                        "concrete element types only where the type implements the operator"]
     op_table(ctx, al)
     if ctx.thorough:
-        m2_expr(ctx, al, "StreamOpsC01_thorough.cfg")
+        m2_expr(ctx, al, "StreamOpsC01T", "StreamOpsC01T.cfg")
         m3_expr(ctx, al, 6000)
     else:
-        m2_expr(ctx, al, "StreamOpsC01_quick.cfg")
+        m2_expr(ctx, al, "StreamOpsC01Q", "StreamOpsC01Q.cfg")
         m3_expr(ctx, al, 600)
     m2_broadcast(ctx, al)
     ctx.exhaustive = True
